@@ -34,15 +34,17 @@ TRUSTED = ["harness/h_C16.cpp builds rtosc_arg_val_t arrays (exact-size heap cop
            "tools/props/C16.py: expansion of compressed runs, numeric/lexicographic/bytewise order of single values, "
            "OSC encoding of a flat list (the independent Spec oracle)",
            "coq/ArgVal/AvFloat.v: Flocq 4.1 binary32/binary64 as the float arithmetic of the extracted model "
-           "(ranges with a float delta); no theorem depends on it"]
+           "(ranges with a float delta); the stdlib-only theorems hold for every float arithmetic, the C16_*_IEEE / "
+           "C16_*_flocq* theorems are about this instance and carry Flocq's four standard axioms (classical reals, "
+           "functional extensionality)",
+           "the C compiler's float ==, <, +, * being IEEE 754 binary32/binary64 round-to-nearest-even (tied by the run)"]
 ASSUMPTIONS = ["comparison options are NULL (tolerance 0)",
                "no NaN among the compared values (NaN is unordered in C; cases containing one are compared "
                "model-vs-implementation only)",
                "ranges are finite (repeat count >= 1): an endless range compares equal to every list it is a "
                "prefix pattern of, which is not transitive by design",
                "ranges with delta have delta and start of one type among c i h f d or both boolean, N x value repeats "
-               "a single value or a whole array, strings are NUL-free, blob length = size of its data",
-               "integer ranges do not overflow (signed overflow is undefined behaviour in C; the model wraps)"]
+               "a single value or a whole array, strings are NUL-free, blob length = size of its data"]
 
 # ---------------------------------------------------------------------------
 # abstract values: ('i',n) ('c',n) ('r',n) ('h',n) ('t',n) ('f',bits) ('d',bits) ('m',bytes)
@@ -103,16 +105,15 @@ def plain(vals):
 def show(tokens): return ",".join(tokens) if tokens else "-"
 
 # --- what a compressed run stands for (property text: N x value; start + i*delta)
+def wrap32(x): return ((x + 2**31) % 2**32) - 2**31
+def wrap64(x): return ((x + 2**63) % 2**64) - 2**63
+
 def range_elem(t, delta, start, i):
-    """i-th element of the range, or None when it is not defined / would overflow"""
+    """i-th element of the range (integers: two's complement wrap-around), None when not defined"""
     if t in "ic":
-        x = start + i * delta
-        if not (I32MIN <= i * delta <= I32MAX and I32MIN <= x <= I32MAX): return None
-        return (t, x)
+        return (t, wrap32(start + i * delta))
     if t == "h":
-        x = start + i * delta
-        if not (I64MIN <= i * delta <= I64MAX and I64MIN <= x <= I64MAX): return None
-        return (t, x)
+        return (t, wrap64(start + i * delta))
     if t == "f":
         return (t, f32bits(f32(bits32f(start) + f32(f32(float(i)) * bits32f(delta)))))
     if t == "d":
@@ -279,9 +280,10 @@ def rnd_run(rng, maxlen, t=None):
             st = rng.choice("TF")
             return [bool_range_elem("T", st, i) for i in range(n)]
         if t in "ich":
-            start = rng.choice([-2, -1, 0, 1, 2, 5, 100, I32MAX - 3 if t != "h" else I64MAX - 3])
-            if t == "c": start = rng.choice([65, 66, 97])
-            delta = rng.choice([-2, -1, 0, 1, 1, 2, 3])
+            big = I64MAX if t == "h" else I32MAX
+            start = rng.choice([-2, -1, 0, 1, 2, 5, 100, big - 3, big - 1, big, -big - 1, -big + 1])
+            if t == "c" and rng.random() < 0.7: start = rng.choice([65, 66, 97])
+            delta = rng.choice([-2, -1, 0, 1, 1, 2, 3, (big + 1) // 2, -(big + 1) // 2, big, -big - 1, 65537])
             es = [range_elem(t, delta, start, i) for i in range(n)]
         elif t == "f":
             start, delta = rng.choice(F32[:9]), rng.choice(F32[:9])
@@ -376,8 +378,10 @@ def delta_for(run):
     if any(v[0] != t for v in run) or t not in "cihfd": return out
     if len(run) == 1:
         cands = [UNIV[t][1][1], UNIV[t][2][1]]
-    elif t in "cih":
-        cands = [run[1][1] - run[0][1]]
+    elif t in "ci":
+        cands = [wrap32(run[1][1] - run[0][1])]
+    elif t == "h":
+        cands = [wrap64(run[1][1] - run[0][1])]
     elif t == "f":
         if not all(isfin32(v[1]) for v in run): return out
         cands = [f32bits(f32(bits32f(run[1][1]) - bits32f(run[0][1])))]
@@ -724,13 +728,20 @@ LEVEL_TEXT = ("For every pair/triple of well-formed argument-value lists (unboun
               "reflexive, antisymmetric (cmp b a = -cmp a b), transitive incl. the strict cases, eq <-> cmp = 0 "
               "(C16_refl/antisym/trans/eq_iff_cmp0); numbers numerically, strings lexicographically, blobs bytewise with "
               "a proper prefix first, 'immediately' first (C16_numeric_*, C16_lexicographic, C16_blob_prefix, "
-              "C16_immediately_first); two ways of writing the same values give the same eq/cmp against every list, "
-              "compare equal to each other, iterate to exactly those values and build the same message "
-              "(C16_compress_invariant, C16_iterate_message, C16_range_arg, C16_denote_functional). All theorems hold for "
-              "every float arithmetic F and are Closed under the global context.  Proved about the code after five fix: "
-              "commits (D14, D15 and three defects found while proving: D22 transitivity around boolean arrays, D23 "
-              "out-of-bounds read for N x [array], D24 rtosc_avmessage payload indexing); the functions before the fixes "
-              "and their refuting witnesses are in coq/ArgVal/AvRegress.v.")
+              "C16_immediately_first).  The float order key and the model's ==/> on bit patterns are proved to be the "
+              "IEEE 754 comparison of Flocq (Bcompare/Beqb/Bltb on b32_of_bits/b64_of_bits) for all bit patterns, NaN "
+              "= unordered, +0 == -0 (C16_float/double_key_is_IEEE_order, _nan_is_IEEE_unordered, _eq_gt_are_IEEE, "
+              "C16_numeric_float/double_IEEE).  Two ways of writing the same values give the same eq/cmp against every "
+              "list, compare equal to each other, iterate to exactly those values and build the same message, which is "
+              "the OSC 1.0 encoding enc_spec (C01's Spec encoder) of the tags and payloads of the written-out values, a "
+              "top-level array being the bare tag 'a' (C16_compress_invariant, C16_iterate_message, "
+              "C16_message_is_osc_encoding, C16_payload_tags_agree, C16_denote_functional).  range_arg is start + i*delta: "
+              "wrapping for i c h, and for the Flocq instance of the float arithmetic binary32/64 round-to-nearest-even "
+              "with its real-number meaning when nothing overflows (C16_range_arg, C16_range_arg_flocq32/64[_real]).  "
+              "The 25 stdlib-only theorems hold for every float arithmetic F and are Closed under the global context; "
+              "the 13 Flocq theorems list Flocq's four standard axioms.  Proved about the code after the fix: commits "
+              "(D14, D15, D22, D23, D24 and the wrap fix); the functions before the fixes and their refuting witnesses "
+              "are in coq/ArgVal/AvRegress.v.")
 LEVEL_NOTE = ("Trusted: Coq kernel, extraction (ExtrOcamlBasic), Flocq 4.1 as float arithmetic of the extracted model only, "
               "OCaml driver, harness, generator and Python oracle. The C code is modelled by hand (coq/ArgVal/AvModel.v) "
               "and related to the model only by the correspondence run.")
